@@ -42,8 +42,14 @@ OPTS = [
     converter.ConversionOptions(recursive=True, user_requested=True, optional_features=None),
     converter.ConversionOptions(recursive=False, user_requested=True, optional_features=None),
     converter.ConversionOptions(recursive=True, user_requested=False, optional_features=F.BUILTIN_FUNCTIONS),
-    converter.ConversionOptions(recursive=True, user_requested=True, optional_features=(F.LISTS, F.EQUALITY_OPERATORS)),
+    converter.ConversionOptions(recursive=False, user_requested=False, internal_convert_user_code=False,
+                                optional_features=None),
 ]
+# OPTS[3] and OPTS[1'] below differ from each other only in one field each; index 1 is
+# (recursive=False, user_requested=True): the pair (1, 3) differs in user_requested and
+# internal_convert_user_code; the explicit pair differing ONLY in internal_convert_user_code:
+OPTS[2] = converter.ConversionOptions(recursive=False, user_requested=False, internal_convert_user_code=True,
+                                      optional_features=None)
 NF = 5
 NO = len(OPTS)
 SAMPLES = (-1, 2, 4, 7)
@@ -62,9 +68,14 @@ class Counting(api.PyToPy):
 
   def transform_ast(self, node, ctx):
     import ast
-    key = (ctx.info.name, ctx.user.options.as_tuple())
+    o = ctx.user.options
+    # the marker is built from the individual fields (not from as_tuple()/hash/eq, which are
+    # part of what is under test)
+    fields = (o.recursive, o.user_requested, o.internal_convert_user_code,
+              tuple(sorted(str(f) for f in o.optional_features)))
+    key = (ctx.info.name, fields)
     self.counts[key] = self.counts.get(key, 0) + 1
-    marker = ast.Expr(ast.Constant('vf-marker %s %r' % (ctx.info.name, sorted(map(str, key[1])))))
+    marker = ast.Expr(ast.Constant('vf-marker %s %r' % (ctx.info.name, fields)))
     node.body.insert(0, marker)
     node.decorator_list = []
     return node
